@@ -1,6 +1,6 @@
 """Which units decide which property (DESIGN.md §5)."""
 
-BUNDLES = ["core"]
+BUNDLES = ["core", "processor"]
 KANI_UNITS = []
 
 A_DLL = "DualLinkedList contract (abstract view Seq<(E,Duration,usize)>; add = stable insert behind all entries with time <= t, pop_min = remove front, cancel = remove first entry with the id, front_time): assumed — raw-pointer code outside Verus"
@@ -55,5 +55,13 @@ PROPS = {
         "bundles": [], "kani": ["body"],
         "assumptions": [A_KANI, "'all body types' is covered by instances {u8,u32,u64,(),[u8;4],Tok(with Drop),Other,NoClone}"],
         "not_covered": ["Message::length = 64 + body length and the derive macro's byte_len (files that cannot be included stand-alone)"],
+    },
+    "C14": {
+        "bundles": ["processor"],
+        "fns": {"processor": ["Processor::incoming_upstream", "Processor::incoming_downstream", "ProcessingState::bump_upstream", "ProcessingState::bump_downstream"]},
+        "assumptions": ["the calls made on stack elements are recorded in a ghost log written right after each real call site (rewrite R4b, tied to the call statements of the real code); elements are arbitrary user code (no assumption on what incoming returns)",
+                        "shim declarations: trait ProcessingElement (supertrait Any and default bodies dropped), opaque Message, trait Module"],
+        "not_covered": ["that every ModuleRef entry point calls incoming_upstream -> handler -> incoming_downstream (net/module/refs.rs, net/runtime/events.rs: RefCell + tokio harness): read, not proved",
+                        "brackets of two events never interleave; emission order of sends; processing stacks supplied via Module::stack"],
     },
 }
